@@ -69,11 +69,10 @@ def run(ctx: Ctx) -> None:
     I = e.interp(allow_fork=False)
     sv = lambda nm: SStr.atom(nm, first=printer.WORD, last=printer.WORD, excludes=frozenset("\"'`"), free=True)
 
-    def run1(qual, args, q):
-        outs = I.explore(qual, lambda: (models.printer(I, quote=q, indent=0), args(), {}))
-        if len(outs) != 1 or outs[0].kind != "return":
-            raise AnalysisError(f"{qual} not evaluable")
-        return outs[0].value
+    def body(type_name, items, q):
+        return [_pai.as_sstr(x) for x in printer.block_lines(I, lambda: models.printer(I, quote=q, indent=0, end_comment=False), type_name, items)]
+
+    lfmt = repo.loc("pprint", repo.func("pprint.PrettyPrinter._format"))
 
     def strtok(text, q):
         return X.eval_callback("string", lambda: [models.token("DOUBLE_QUOTED_STRING" if q == '"' else "SINGLE_QUOTED_STRING", text)])[0].value
@@ -86,18 +85,17 @@ def run(ctx: Ctx) -> None:
 
     for q in ('"', "'"):
         # repeated key
-        lines = run1("pprint.PrettyPrinter.process_repeated_list", lambda: ["processing", [sv("v1"), sv("v2")], 0, 0], q)
+        lines = body("layer", [("processing", [sv("v1"), sv("v2")])], q)
         back = []
         for ln in lines:
-            val = _pai.as_sstr(ln).slice(len("PROCESSING "), None)
+            val = ln.slice(len("PROCESSING "), None)
             d = cb("attr", lambda val=val: [models.token("UNQUOTED_STRING", "PROCESSING"), strtok(val, q)])
             back.append(d.get("processing"))
-        ctx.check(back == [sv("v1"), sv("v2")], "R1b", f"repeated key (quote {q})", repo.loc("pprint", repo.func("pprint.PrettyPrinter.process_repeated_list")), "values come back in order", f"PROCESSING v1 / v2 comes back as {back}")
+        ctx.check(back == [sv("v1"), sv("v2")], "R1b", f"repeated key (quote {q})", lfmt, "values come back in order", f"PROCESSING v1 / v2 comes back as {back}")
         # CONFIG
         d0 = HDict()
         d0["somekey"] = sv("v")
-        (ln,) = run1("pprint.PrettyPrinter.process_config_dict", lambda: [d0, 0], q)
-        ln = _pai.as_sstr(ln)
+        (ln,) = body("map", [("config", d0)], q)
         head = ln.pieces[0] if ln.pieces and isinstance(ln.pieces[0], str) else ""
         fields = head.split(" ")
         if len(fields) < 3 or fields[0] != "CONFIG":
@@ -105,56 +103,48 @@ def run(ctx: Ctx) -> None:
         keytxt = SStr([fields[1]])
         valtxt = ln.slice(len(fields[0]) + len(fields[1]) + 2, None)
         d = cb("config", lambda: [models.token("CONFIG", "CONFIG"), strtok(keytxt, q), strtok(valtxt, q)])
-        ctx.check(dict(d.get("config") or {}) == {"somekey": sv("v")}, "R1b", f"CONFIG (quote {q})", repo.loc("pprint", repo.func("pprint.PrettyPrinter.process_config_dict")), "sub-key and value come back", f"CONFIG somekey comes back as {d.get('config')!r} from line {ln!r}")
+        ctx.check(dict(d.get("config") or {}) == {"somekey": sv("v")}, "R1b", f"CONFIG (quote {q})", lfmt, "sub-key and value come back", f"CONFIG somekey comes back as {d.get('config')!r} from line {ln!r}")
         # key/value block
-        md = HDict()
-        md["__type__"] = "metadata"
-        md["akey"] = sv("v")
-        (ln,) = run1("pprint.PrettyPrinter.process_dict", lambda: [md, 0, HDict()], q)
-        ln = _pai.as_sstr(ln)
+        lines = body("layer", [("metadata", printer.kv_dict("metadata", [("akey", sv("v"))]))], q)
+        if len(lines) != 3:
+            raise AnalysisError(f"METADATA block shape not recognised: {lines!r}")
+        ln = lines[1]
         ktxt = SStr([q, "akey", q])
         vtxt = ln.slice(len("akey") + 3, None)
         pair = cb("string_pair", lambda: [strtok(ktxt, q), strtok(vtxt, q)])
         dd = cb("metadata", lambda: [models.token("METADATA", "METADATA"), pair, models.token("_END", "END")])
         got = {k: v for k, v in dd.items() if not (isinstance(k, str) and k.startswith("__"))}
-        ctx.check(got == {"akey": sv("v")}, "R1b", f"METADATA entry (quote {q})", repo.loc("pprint", repo.func("pprint.PrettyPrinter.process_dict")), "key and value come back", f"METADATA akey comes back as {got!r} from line {ln!r}")
+        ctx.check(got == {"akey": sv("v")}, "R1b", f"METADATA entry (quote {q})", lfmt, "key and value come back", f"METADATA akey comes back as {got!r} from line {ln!r}")
         # PROJECTION
-        lines = run1("pprint.PrettyPrinter.process_projection", lambda: ["projection", [sv("p1"), sv("p2")], 0, ""], q)
-        toks = [models.token("PROJECTION", "PROJECTION")] + [strtok(_pai.as_sstr(x), q) for x in lines[1:-1]] + [models.token("_END", "END")]
+        lines = body("layer", [("projection", [sv("p1"), sv("p2")])], q)
+        toks = [models.token("PROJECTION", "PROJECTION")] + [strtok(x, q) for x in lines[1:-1]] + [models.token("_END", "END")]
         d = cb("projection", lambda: list(toks))
-        ctx.check(d.get("projection") == [sv("p1"), sv("p2")], "R1b", f"PROJECTION (quote {q})", repo.loc("pprint", repo.func("pprint.PrettyPrinter.process_projection")), "list of strings comes back", f"PROJECTION p1 p2 comes back as {d.get('projection')!r}")
+        ctx.check(d.get("projection") == [sv("p1"), sv("p2")], "R1b", f"PROJECTION (quote {q})", lfmt, "list of strings comes back", f"PROJECTION p1 p2 comes back as {d.get('projection')!r}")
     # POINTS / PATTERN
-    for key, qual in (("pattern", "pprint.PrettyPrinter.format_pair_list"), ("points", "pprint.PrettyPrinter.format_repeated_pair_list")):
+    for key, owner in (("pattern", "style"), ("points", "feature")):
         pairs = [(SNum.sym("n0", None, None), SNum.sym("n1", None, None)), (SNum.sym("n2", None, None), SNum.sym("n3", None, None))]
-        lines = run1(qual, lambda: [key, list(pairs), 0], '"')
+        lines = body(owner, [(key, list(pairs))], '"')
         kids = [models.token(key.upper(), key.upper())]
         for ln in lines[1:-1]:
-            toks2 = RT.tokens_of(_pai.as_sstr(ln), '"', None)
+            toks2 = RT.tokens_of(ln, '"', None)
             nums = [cb("int", lambda t=t: [models.token("SIGNED_INT", t[1])]) for t in toks2]
             kids.append(cb("num_pair", lambda nums=nums: list(nums)))
         kids.append(models.token("_END", "END"))
         d = cb(key, lambda: list(kids))
         got = d.get(key)
-        ctx.check(isinstance(got, list) and [tuple(p) for p in got] == pairs, "R1b", f"{key.upper()} pairs", repo.loc("pprint", repo.func(qual)), "pairs come back", f"{key.upper()} {pairs} comes back as {got!r} from lines {lines!r}")
+        ctx.check(isinstance(got, list) and [tuple(p) for p in got] == pairs, "R1b", f"{key.upper()} pairs", lfmt, "pairs come back", f"{key.upper()} {pairs} comes back as {got!r} from lines {lines!r}")
 
     # ---- R5 history independence ------------------------------------------------------------------
-    ctx.rule("R5", "what process_attribute writes for (type, keyword, value) is the same on a printer that has already written other values as on a new one (values that are equal as text but differ in type, the same value under another keyword or object type)", 20)
+    ctx.rule("R5", "what the printer writes for (type, keyword, value) is the same on a printer that has already written other values as on a new one (values that are equal as text but differ in type, the same value under another keyword or object type)", 20)
     I5 = e.interp(allow_fork=False)
-    lp = repo.loc("pprint", repo.func("pprint.PrettyPrinter.process_attribute"))
+    lp = repo.loc("pprint", repo.func("pprint.PrettyPrinter._format"))
 
     def written(calls, q):
-        holder: dict = {}
+        pp = models.printer(I5, quote=q, indent=0)
         res = []
         for t, k, v in calls:
-            def make(t=t, k=k, v=v):
-                if "pp" not in holder:
-                    holder["pp"] = models.printer(I5, quote=q, indent=0)
-                return holder["pp"], [t, k, v, 0, 0], {}
-
-            outs = I5.explore("pprint.PrettyPrinter.process_attribute", make)
-            if len(outs) != 1:
-                raise AnalysisError(f"process_attribute forks on concrete {t}.{k}={v!r}")
-            res.append((outs[0].kind, outs[0].value if outs[0].kind == "return" else outs[0].exc))
+            kind, ln = printer.attr_line(I5, pp, t, k, v)
+            res.append((kind, ln))
         return res
 
     sequences = []
